@@ -112,6 +112,12 @@ build_alphabet(const char *name) {
   if (strcmp(name, "rw") == 0 || strcmp(name, "rwr") == 0) {
     add_op("G1");
   }
+  if (strcmp(name, "seek") == 0) {
+    /* one hundred lookups of each key: exhausts the seek allowance of the first table probed (seek-triggered compaction) */
+    for (k = 0; k < kv_nkeys; k++) {
+      snprintf(b, sizeof(b), "G%d", k); add_op(b);
+    }
+  }
   if (strcmp(name, "rwr") == 0) {
     /* every bounded manual compaction of levels 0 and 1: [key_i, key_j], i <= j */
     int lv, i2, j2;
